@@ -1,11 +1,113 @@
-(* C03 — TTML codec fidelity (time expressions, line breaks, styles, regions), on the XML tree abstraction
-   of Kit/Xml.v: the encoding/xml layer (bytes <-> tree) is a named contract of the trusted base, tied by
-   the harness (notes/C03.md). *)
-From Coq Require Import List ZArith NArith Bool.
-From Astisub Require Import Kit.Base Kit.Str Kit.Xml Model.Dur Model.Ttml Proofs.TtmlBase.
-Import ListNotations.
+(* C03 — TTML codec fidelity: time expressions, line breaks, styles, regions.
 
-(* reader and writer are total: no document tree and no value makes them panic *)
+   What is proved here is about the Gallina model of ttml.go (Model/Ttml.v) over the XML token tree of
+   Kit/Xml.v.  The encoding/xml layer (bytes <-> tree: "decoding the encoder's output of a tree gives that
+   tree with the encoder's indentation text nodes; names are matched by local name") is a named contract
+   of the trusted base, tied by the harness on every generated case (notes/C03.md).
+
+   - time expressions: for every expression of each syntactic form (clock time with a 0-3 digit fraction,
+     clock time with frames, offsets in h/m/s/ms with a decimal fraction, f, t) the parser returns the
+     instant the expression means: exactly for the integer-only forms; for the forms that go through
+     binary64 (ParseFloat, one multiplication or a division and a multiplication, math.Round) the result r
+     satisfies [denotes_instant r num den]: r = num/den when that is a whole number of nanoseconds, and
+     |r - num/den| < 1 ns otherwise.  Side conditions: the decimal has a mantissa below 2^53 and at most 22
+     fraction digits (Go's exact ParseFloat path; 15 significant digits always qualify), counts and rates
+     below 2^53, and the instant below 2^49 ns (156 h) - needed because above it one binary64 unit in the
+     last place exceeds 1/8 ns.
+   - parse (format t) = t truncated to the millisecond, for every 0 <= t <= max_int64.
+   - line splitting: every rendering of a paragraph's lines and runs ([render_content]: <br/> between
+     elements or inside an element, indentation before any node, around any <br/> and before the end tag)
+     is read back as exactly those runs and line breaks; lines survive the token view.
+   - references: every style element is linked to the parent named by its style attribute, for any shape
+     of the parent relation (several styles sharing a parent, parents defined later), and the parent is a
+     style of the document; the five language codes map to their languages with any subtag.
+   - the reader's result does not depend on name spaces (prefixes, default namespace) nor on the order of
+     an element's attributes (distinct local names).
+   - write -> read round trip on trees for all representable documents and every white-space indent option
+     (Proofs/TtmlDoc.v, theorem C03_write_read below).
+   - reader and writer are total (no Panic). *)
+From Coq Require Import List ZArith NArith Bool Permutation.
+From Astisub Require Import Kit.Base Kit.Str Kit.Float64 Kit.Float64x Kit.Xml Model.Dur Model.Ttml
+  Proofs.DurProofs Proofs.TtmlBase Proofs.TtmlSpec Proofs.TtmlTime Proofs.TtmlFloat Proofs.TtmlTimeAll
+  Proofs.TtmlLines Proofs.TtmlRefs Proofs.TtmlDocSpec.
+Import ListNotations.
+Open Scope Z_scope.
+
+(* ---------------- time expressions ---------------- *)
+Theorem C03_time_clock : forall hs ms ss fs fr tr, digits hs -> digits ms -> digits ss -> digits fs ->
+  hs <> [] -> ms <> [] -> ss <> [] -> (length fs <= 3)%nat ->
+  dval hs <= max_int64 -> dval ms <= max_int64 -> dval ss <= max_int64 -> dval fs <= max_int64 ->
+  ttml_time (clock_expr hs ms ss fs) fr tr = Some (hms_ns hs ms ss + frac_ns fs).
+Proof. exact clock_time. Qed.
+Print Assumptions C03_time_clock.
+
+Theorem C03_time_clock_frames : forall hs ms ss fds fr tr, digits hs -> digits ms -> digits ss -> digits fds ->
+  hs <> [] -> ms <> [] -> ss <> [] -> fds <> [] ->
+  dval hs <= max_int64 -> dval ms <= max_int64 -> dval ss <= max_int64 ->
+  0 <= dval fds < 2 ^ 53 -> 0 < fr < 2 ^ 53 -> dval fds * second_ns < 2 ^ 49 * fr ->
+  exists r, ttml_time (clock_frames_expr hs ms ss fds) fr tr = Some (hms_ns hs ms ss + r) /\
+            denotes_instant r (dval fds * second_ns) fr.
+Proof. exact clock_frames_denotes. Qed.
+Print Assumptions C03_time_clock_frames.
+
+Theorem C03_time_offset : forall ip fp m fr tr, digits ip -> digits fp -> ip <> [] ->
+  (m = Mh \/ m = Mm \/ m = Ms \/ m = Mms) ->
+  let n := dec_mant ip fp in let den := 10 ^ Z.of_nat (length fp) in
+  0 <= n < 2 ^ 53 -> (length fp <= 22)%nat -> n * timebase m < 2 ^ 49 * den ->
+  exists r, ttml_time (offset_expr ip fp m) fr tr = Some r /\ denotes_instant r (n * timebase m) den.
+Proof. exact offset_time_denotes. Qed.
+Print Assumptions C03_time_offset.
+
+Theorem C03_time_frames : forall ip fr tr, digits ip -> ip <> [] ->
+  0 < dval ip < 2 ^ 53 -> 0 < fr < 2 ^ 53 -> dval ip * second_ns < 2 ^ 49 * fr ->
+  exists r, ttml_time (offset_expr ip [] Mf) fr tr = Some r /\ denotes_instant r (dval ip * second_ns) fr.
+Proof. exact frames_offset_denotes. Qed.
+Print Assumptions C03_time_frames.
+
+Theorem C03_time_ticks : forall ip fr tr, digits ip -> ip <> [] ->
+  0 < dval ip < 2 ^ 53 -> 0 < tr < 2 ^ 53 -> dval ip * second_ns < 2 ^ 49 * tr ->
+  exists r, ttml_time (offset_expr ip [] Mt) fr tr = Some r /\ denotes_instant r (dval ip * second_ns) tr.
+Proof. exact ticks_offset_denotes. Qed.
+Print Assumptions C03_time_ticks.
+
+(* reading what TTMLOutDuration.MarshalText prints *)
+Theorem C03_time_format_roundtrip : forall t fr tr, 0 <= t <= max_int64 ->
+  ttml_time (format_ttml t) fr tr = Some (t - t mod 1000000).
+Proof. exact time_format_roundtrip. Qed.
+Print Assumptions C03_time_format_roundtrip.
+
+(* ---------------- line splitting ---------------- *)
+Theorem C03_lines : forall gs wl, content_ok gs wl = true ->
+  exists its, items_of (strip_content (render_content gs wl)) = Some its /\
+              flat_map run_toks its = flat_map group_toks gs.
+Proof. exact content_read. Qed.
+Print Assumptions C03_lines.
+Theorem C03_lines_tokens : forall ls : list (list trun), ls <> [] -> lines_of (lines_toks ls) = ls.
+Proof. exact lines_of_lines_toks. Qed.
+Print Assumptions C03_lines_tokens.
+
+(* ---------------- references, parents, language ---------------- *)
+Theorem C03_parents : forall root d, read_ttml root = Ok d -> NoDup (map elem_id (style_elems root)) ->
+  forall n, In n (style_elems root) ->
+  exists s, map_get (elem_id n) (td_styles d) = Some s /\ ts_id s = elem_id n /\ ts_ref s = elem_style n /\
+            match elem_style n with Some p => map_mem p (td_styles d) = true | None => True end.
+Proof. exact styles_linked. Qed.
+Print Assumptions C03_parents.
+Theorem C03_language : forall code name rest, In (code, name) lang_table -> lang_of (code ++ rest) = name.
+Proof. exact lang_of_table. Qed.
+Print Assumptions C03_language.
+
+(* ---------------- rendering freedoms the reader does not see ---------------- *)
+Theorem C03_prefixes : forall f t, read_ttml (respace f t) = read_ttml t.
+Proof. exact read_ttml_respace. Qed.
+Print Assumptions C03_prefixes.
+Theorem C03_attr_order : forall al al', Permutation al al' -> NoDup (map attr_local al) ->
+  tt_read_attrs al' = tt_read_attrs al /\
+  (forall l, attr_str l al' = attr_str l al /\ dur_attr l al' = dur_attr l al /\ int_attr l al' = int_attr l al).
+Proof. exact attr_order_irrelevant. Qed.
+Print Assumptions C03_attr_order.
+
+(* ---------------- totality ---------------- *)
 Theorem C03_read_total : forall root s, read_ttml root <> Panic s.
 Proof. exact read_ttml_total. Qed.
 Print Assumptions C03_read_total.
